@@ -119,6 +119,50 @@ def override_record(vc, rid, case, seed=0, raw=None):
     return rec
 
 
+def int_value(fam, n, vk, length):
+    """integer-typed value (>= 2) of one parameter: 2 / 3 alternating with the position of the name"""
+    v = 2 + D.NAMES[fam].index(n) % 2
+    if vk == "pyint":
+        return v
+    if vk == "int64":
+        return np.int64(v)
+    if vk == "int32":
+        return np.int32(v)
+    return np.array([v + (i % 2) for i in range(length)], dtype=np.int64)     # one value per point
+
+
+def int_override_record(vc, rid, case, seed=0):
+    """Fam(S).method(x, **E_int)  vs  Fam(Resolve(S, E_int)).method(x)  with integer-typed values"""
+    fam, E, method, vk, pas = case["fam"], list(case["E"]), case["method"], case["special"], case["pass"]
+    arg = D.arg_of(method, "ndarray")
+    length = 1 if method == "draw_sample" else len(arg)
+    S = D.STORED[fam]
+    Ed = {n: int_value(fam, n, vk, max(length, 4)) for n in E}
+    resolved = {n: Ed.get(n, S[n]) for n in D.NAMES[fam]}
+    rec = dict(id=rid, kind="intoverride", fam=fam, E=E, method=method, valkind=vk, **{"pass": pas},
+               outcome="ok", outcomeinst="ok", same=False, shapeok=False, relq=BIG, effective=True,
+               hsame=True, hpos=[0, 0])
+    with warnings.catch_warnings(), np.errstate(all="ignore"):
+        warnings.simplefilter("ignore")
+        ra = rb = None
+        try:
+            ra = D.call(D.build(vc, fam, S), fam, method, arg, Ed, pas, random_state=1234 + seed)
+        except Exception as e:  # noqa
+            rec["outcome"] = type(e).__name__
+        try:
+            rb = D.call(D.build(vc, fam, resolved), fam, method, arg, {}, pas, random_state=1234 + seed)
+        except Exception as e:  # noqa
+            rec["outcomeinst"] = type(e).__name__
+        if ra is not None and rb is not None:
+            same, shapeok, rel = D.compare(ra, rb)
+            rec.update(same=bool(same), shapeok=bool(shapeok), relq=Qc(rel, 1e15, 0, BIG))
+    return rec
+
+
+def int_override_key(c):
+    return (f"{c['fam']} {c['method']} override={'+'.join(c['E'])} int={c['special']} pass={c['pass']}")
+
+
 HIST_X = np.array([0.9, 1.6, 2.3, 3.1])
 HIST_P = np.array([0.05, 0.3, 0.62, 0.97])
 
@@ -480,7 +524,7 @@ def law_cases(ctx, classes):
 # ---------------------------------------------------------------------------------------
 
 
-def judge(ctx, vc, ocases, lcases, summary=True, hists=()):
+def judge(ctx, vc, ocases, lcases, summary=True, hists=(), icases=()):
     raw = []
     recs = [override_record(vc, i + 1, c, ctx.seed, raw) for i, c in enumerate(ocases)]
     if ocases:
@@ -493,7 +537,9 @@ def judge(ctx, vc, ocases, lcases, summary=True, hists=()):
     if hists:
         exp = hist_expected(vc, sorted({o[1] for h in hists for o in h if o[0] == "new"}))
         hrecs = [hist_record(vc, len(recs) + len(lrecs) + i + 1, h, exp) for i, h in enumerate(hists)]
-    allrecs = recs + lrecs + hrecs
+    irecs = [int_override_record(vc, len(recs) + len(lrecs) + len(hrecs) + i + 1, c, ctx.seed)
+             for i, c in enumerate(icases)]
+    allrecs = recs + lrecs + hrecs + irecs
     if summary:
         allrecs.append(dict(id=len(allrecs) + 1, kind="summary", tier=ctx.tier, nhist=len(hists)))
     failing = ctx.validate("Trace_C05", "Trace_C05.cfg", allrecs, xss="256m")
@@ -504,6 +550,12 @@ def judge(ctx, vc, ocases, lcases, summary=True, hists=()):
                           f"outcome={r['outcome']} instance={r['outcomeinst']} same={r['same']} "
                           f"shapeok={r['shapeok']} rel={r['relq']}e-15 hsame={r['hsame']} at {r['hpos']}",
                           replay=dict(kind="override", case=c, history=(clause == "CaseOrderIndependent")))
+    for c, r in zip(icases, irecs):
+        ctx.case("intoverride " + int_override_key(c))
+        for clause in failing.get(r["id"], []):
+            ctx.violation(clause, int_override_key(c),
+                          f"outcome={r['outcome']} instance={r['outcomeinst']} same={r['same']} "
+                          f"shapeok={r['shapeok']} rel={r['relq']}e-15", replay=dict(kind="intoverride", case=c))
     for h, r in zip(hists, hrecs):
         ctx.case(hist_key(h), nontrivial=len({o[1] for o in h if o[0] == "new"}) > 1)
         for clause in failing.get(r["id"], []):
@@ -630,7 +682,8 @@ def run(ctx):
     ctx.rule = ("routing: TLC enumerates every (family, override subset E of the names, method in pdf/cdf/icdf/"
                 "draw_sample, argument kind scalar/list/ndarray, pass kind keyword/positional); each is executed as "
                 "Fam(S).method(x, E) vs Fam(Resolve).method(x) with pairwise distinct numbers; non-trivial = the "
-                "override changes the result (E non-empty) or the specified outcome is an exception; history leg: all 3264 "
+                "override changes the result (E non-empty) or the specified outcome is an exception; the same for integer-typed "
+                "explicit values (python int, numpy int64/int32, integer array; every single name and all names); history leg: all 3264 "
                 "instances are constructed first, then every case is evaluated twice at different positions of two "
                 "seeded shuffles and must equal its isolated evaluation bit for bit; plus every TLC-generated "
                 "construct/evaluate history of up to 3 ScipyDistribution instances (4 operations). formula: TLC "
@@ -654,6 +707,7 @@ def run(ctx):
     # M
     ctx.model_check("ParamRouting", "MC_ParamRouting_override.cfg", must_cover=("NewDist", "CallExplicit"))
     ctx.model_check("ParamRouting", "MC_ParamRouting_override_mut.cfg", expect_violation="OverrideEqualsInstance")
+    ctx.model_check("ParamRouting", "MC_ParamRouting_override_mut_int.cfg", expect_violation="OverrideEqualsInstance")
     ctx.model_check("ParamRouting", "MC_ParamRouting_override_mut_both.cfg",
                     expect_violation="OverrideOutcomeAsSpecified")
     ctx.model_check("ParamRoutingHist", ctx.pick("MC_ParamRoutingHist_quick.cfg", "MC_ParamRoutingHist_thorough.cfg"),
@@ -665,12 +719,15 @@ def run(ctx):
     ctx.model_check("DistLaws", "MC_DistLaws_mut_cdf.cfg", expect_violation="MonotoneInv")
     ctx.model_check("DistLaws", "MC_DistLaws_mut_pdf.cfg", expect_violation="DerivativeExact")
     # R
-    ocases = ctx.generate("ParamRouting", "Gen_ParamRouting_override.cfg")
+    gen_o = ctx.generate("ParamRouting", "Gen_ParamRouting_override.cfg")
+    ocases = [c for c in gen_o if c["special"] == "regular"]
+    icases = [c for c in gen_o if c["special"] != "regular"]
     classes = ctx.generate("DistLawsGen", f"Gen_DistLaws_{ctx.tier}.cfg")
     lcases = law_cases(ctx, classes)
     hists = ctx.generate("ParamRoutingHist", "Gen_ParamRoutingHist.cfg")
     # V
-    recs, lrecs, failing = judge(ctx, vc, ocases, lcases, hists=hists)
+    recs, lrecs, failing = judge(ctx, vc, ocases, lcases, hists=hists, icases=icases)
+    ctx.notes["integer_override_cases"] = len(icases)
     ctx.notes["construct_evaluate_histories"] = len(hists)
     ok_o = next((r for r in recs if r["outcome"] == "ok" and r["same"] and r["id"] not in failing), None)
     good = [r for r in lrecs if r["id"] not in failing and r["dslope"] and any(r["rtxin"])]
@@ -699,9 +756,12 @@ def replay(ctx, case):
     c = case["case"]
     if c["kind"] == "override" and c.get("history"):
         # an order dependence needs the other instances: re-run the whole override leg
-        judge(ctx, vc, ctx.generate("ParamRouting", "Gen_ParamRouting_override.cfg"), [], summary=False)
+        judge(ctx, vc, [x for x in ctx.generate("ParamRouting", "Gen_ParamRouting_override.cfg")
+                        if x["special"] == "regular"], [], summary=False)
     elif c["kind"] == "override":
         judge(ctx, vc, [c["case"]], [], summary=False)
+    elif c["kind"] == "intoverride":
+        judge(ctx, vc, [], [], summary=False, icases=[c["case"]])
     elif c["kind"] == "hist":
         judge(ctx, vc, [], [], summary=False, hists=[c["case"]])
     else:
